@@ -260,14 +260,19 @@ def drain_events(e0: int, e1: int, e2: int, e3: int, exc: bool) -> bool:
     return True
 
 
-def exit_with_output(k0: int, k1: int, k2: int, k3: int, status: int) -> bool:
+def exit_with_output(k0: int, k1: int, k2: int, k3: int, status: int, limit: int = 0) -> bool:
     """Client session: for every order of {stdout data, stderr data, exit
     status, EOF} followed by CLOSE, the exit status is recorded and reading to
-    EOF returns the complete stdout and stderr."""
+    EOF returns the complete stdout and stderr - also when the stream buffer
+    limit is so small that the session pauses the channel after the first
+    chunk and the rest waits in the channel's own receive buffer when CLOSE
+    arrives."""
     loop = MiniLoop()
     sess = ST.SSHClientStreamSession()
     chan, conn, _ = mkchan(cls=CH.SSHClientChannel, window=64, pktsize=32, loop=loop, session=sess)
     sess.connection_made(chan)
+    if limit:
+        sess._limit = limit          # (normally the channel's receive window)
     rd = ST.SSHReader(sess, chan)
     er = ST.SSHReader(sess, chan, EXTENDED_DATA_STDERR)
     kinds = [k0, k1, k2, k3]
@@ -295,13 +300,17 @@ def exit_with_output(k0: int, k1: int, k2: int, k3: int, status: int) -> bool:
     loop.run(50)
     res = {}
 
-    async def collect():
+    async def collect_out():
         res['out'] = await rd.read()
+
+    async def collect_err():
         res['err'] = await er.read()
 
-    loop.create_task(collect())
-    loop.run(100)
-    if loop.exceptions or 'err' not in res:
+    # both streams are read concurrently (as communicate()/wait() do): reading them one after the other can block on a full buffer
+    loop.create_task(collect_out())
+    loop.create_task(collect_err())
+    loop.run(200)
+    if loop.exceptions or 'err' not in res or 'out' not in res:
         return False
     return res['out'] == out_d and res['err'] == err_d and chan.get_exit_status() == (status & 0xff) \
         and chan.get_returncode() == (status & 0xff)
@@ -534,10 +543,10 @@ OBLIGATIONS = [
        functions=[PR._FileReader.feed, PR._AsyncFileReader._feed],
        bounds='file / async file sources of 0..7 bytes, buffer size 1..4, feeding paused after the k-th chunk (k in 0..3) or never'),
     Ob('exit_with_output', exit_with_output,
-       sym=dict(k0=R(0, 3), k1=R(0, 3), k2=R(0, 3), k3=R(0, 3)), shards=dict(status=[0, 3, 256 + 7]), timeout=150,
+       sym=dict(k0=R(0, 3), k1=R(0, 3), k2=R(0, 3), k3=R(0, 3)), shards=dict(status=[0, 3, 256 + 7], limit=[0, 1, 10]), timeout=150,
        functions=[CH.SSHClientChannel._process_exit_status_request, CH.SSHChannel._process_request,
                   CH.SSHChannel._process_close, CH.SSHChannel._process_eof, ST.SSHReader.read],
-       bounds='all 24 orders of {stdout data, stderr data, exit-status, EOF} then CLOSE; status in {0,3,263}'),
+       bounds='all 24 orders of {stdout data, stderr data, exit-status, EOF} then CLOSE; status in {0,3,263}; stream buffer limit in {window, 1, 10} bytes (the small ones make the session pause the channel)'),
 ]
 
 MANIFEST = dict(
